@@ -88,11 +88,13 @@ def _f_idx(enc):
     return "|".join(items) if items else None
 
 
-def encode(prog):
+def encode(prog, shapes=None):
     """Encode a DSL program as one `ex.*` program token, or None when some op is outside
-    the modelled mini-language."""
+    the modelled mini-language.  `shapes` (name -> shape, e.g. from the NumPy evaluation) lets
+    roll/diff be expressed through slices + concat/zip, the way the implementation builds them."""
     pos = {}
     steps = []
+    ndims = shapes
     for st in prog:
         op = st["op"]
         a = [pos.get(x) for x in st.get("args", [])]
@@ -125,7 +127,37 @@ def encode(prog):
         elif op == "expand_dims":
             s = f"expand~{a[0]}~{st['axis']}"
         elif op == "cumsum":
+            if st.get("method", "sequential") != "sequential":
+                return None
             s = f"cumsum~{a[0]}~{st['axis']}"
+        elif op == "squeeze":
+            s = f"squeeze~{a[0]}~{st['axis']}"
+        elif op == "stack":
+            # stack = concatenate of expand_dims (as the implementation does)
+            ids = []
+            for k in a:
+                steps.append(f"expand~{k}~{st['axis']}")
+                ids.append(len(steps) - 1)
+            s = f"concat~{st['axis']}~{_f_l(ids)}"
+        elif op == "roll" and ndims is not None:
+            # exactly as dask_array.manipulation._roll.roll builds it: concatenate([x[s:], x[:s]])
+            n = ndims[st["args"][0]][st["axis"]]
+            nd = len(ndims[st["args"][0]])
+            sh = 0 if n == 0 else (-st["shift"]) % n
+
+            def sl(lo, hi):
+                return "|".join(("N:N:N" if ax != st["axis"] else f"{'N' if lo is None else lo}:{'N' if hi is None else hi}:N") for ax in range(nd))
+
+            steps.append(f"slice~{a[0]}~{sl(sh, None)}")
+            steps.append(f"slice~{a[0]}~{sl(None, sh)}")
+            s = f"concat~{st['axis']}~{len(steps) - 2},{len(steps) - 1}"
+        elif op == "diff" and ndims is not None:
+            nd = len(ndims[st["args"][0]])
+            hi = "|".join(("N:N:N" if ax != st["axis"] else "1:N:N") for ax in range(nd))
+            lo = "|".join(("N:N:N" if ax != st["axis"] else "N:-1:N") for ax in range(nd))
+            steps.append(f"slice~{a[0]}~{hi}")
+            steps.append(f"slice~{a[0]}~{lo}")
+            s = f"zip~sub~{len(steps) - 2}~{len(steps) - 1}"
         else:
             return None
         pos[st["out"]] = len(steps)
@@ -170,8 +202,8 @@ def probe_known(ctx, sigs):
         x = np.zeros((2, 0, 2, 6), dtype=np.int64)
         d = da.from_array(x, chunks=((2,), (0,), (2,), (4, 2)))
         attempt("minmax-zero-size", lambda: d.min(axis=(0, 2), keepdims=True).compute(), x.min(axis=(0, 2), keepdims=True))
-    if "slice-through-generic-map_blocks" in sigs:
+    if "slice-through-generic-blockwise" in sigs:
         x = np.arange(10)
         d = da.from_array(x, chunks=5)
-        want = np.concatenate([np.cumsum(x[:5]), np.cumsum(x[5:])])[3:7]
-        attempt("slice-through-generic-map_blocks", lambda: d.map_blocks(np.cumsum)[3:7].compute(), want)
+        want = np.concatenate([np.cumsum(x[:5]), np.cumsum(x[5:])])[::-1]
+        attempt("slice-through-generic-blockwise", lambda: d.map_blocks(lambda b: np.cumsum(b, axis=0), dtype=int)[::-1].compute(), want)
